@@ -7,5 +7,9 @@ for i in 01 02 03 04 05 06 07 08 09 10 11 12 13 14 15 16 17 18 19 20; do
   VERIF_SEED=$seed ./check C$i --tier $tier > /tmp/scratch/run_${tier}_${seed}_C$i.log 2>&1
   rc=$?
   echo "C$i exit=$rc $(( $(date +%s) - t0 ))s $(grep -E '^property=' /tmp/scratch/run_${tier}_${seed}_C$i.log | sed 's/^property=C.. //')"
-  [ $rc -ne 0 ] && grep -E "VIOLATION|INCONCLUSIVE|first failure|generator health" /tmp/scratch/run_${tier}_${seed}_C$i.log | head -5
+  if [ $rc -ne 0 ]; then
+    bad=1
+    grep -E "VIOLATION|INCONCLUSIVE|first failure|generator health" /tmp/scratch/run_${tier}_${seed}_C$i.log | head -5
+  fi
 done
+exit ${bad:-0}
